@@ -1,0 +1,17 @@
+//go:build verif
+
+package utils
+
+//@ func Retry
+//@   props C08 C12 C20
+//@   note frame trusted: besides calling f, Retry only sleeps and logs (f is an arbitrary func value inside the body)
+//@   lastcall f
+//@   trustframe
+//@   assigns X.retry
+//@   ensures at_least_once: true
+
+//@ func CloseWithErrorHandling
+//@   props C07 C20
+//@   note the closers are arbitrary func values inside the body; their effects are accounted for at each call site
+//@   trusted
+//@   assigns X.fs, X.net
